@@ -69,9 +69,29 @@ func ZzC18() {
 	}
 	zz.Assume(capable) // together the peers hold the range and one of them is fault-free
 
+	if zz.Param("LOWSCORES", 0) == 1 && zz.Bool("scores.low") {
+		// slow peers: the first one sits at the score a newly connected peer gets (defaultScore), the others below it
+		low := []float32{1, 0.5, 0.25, 0.125, 0.0625}
+		for i, id := range env.peers {
+			env.ex.peerTracker.trackedPeers[id].peerScore = low[i]
+		}
+		zz.Reach("low-scores")
+	}
+	// bounded progress: every request either yields headers, hits one of the (at most one per peer) faults or is
+	// a NOT_FOUND that costs the asked peer 20% of its score, so a peer lacking the range is outranked by a
+	// capable one after a bounded number of rounds. A capable fault-free peer never loses score; scores here
+	// stay below 10*(N-1) <= 640 and a capable peer's above 1/16, so a lacking peer is asked at most
+	// log(640*16)/log(1.25) < 42 times in vain; the catalogue has at most 3 such peers in the tiers run.
+	maxReqs := zz.Param("MAXREQS", 200)
 	env.behaveCtx = func(rctx context.Context, p int, origin, amount uint64, nth int) ([]*p2p_pb.HeaderResponse, error) {
 		c := cfgs[p]
 		c.calls++
+		if env.reqs > maxReqs {
+			zz.Reach("no-progress")
+			zz.Assert(false, "GetRangeByHeight keeps re-asking peers without progress although a capable honest peer is available")
+			<-rctx.Done()
+			return nil, rctx.Err()
+		}
 		switch {
 		case c.fault == 2 && !c.tripped:
 			c.tripped = true
